@@ -6,11 +6,15 @@ P="$1"; K="$2"; shift 2; EXTRA="$*"
 ID="$P-h$K"
 SRC=/verif/harmless/$ID/patch.diff
 [ -f "$SRC" ] || SRC=/tmp/mut/outh_$P/h$K.diff
+[ -f "$SRC" ] || SRC=/tmp/mut/outp_$P/h$K.diff
 [ -f "$SRC" ] || { echo "$ID: no diff"; exit 2; }
 WT=/tmp/mut/harm_$ID.$$
 git -C /repo worktree add -q --detach "$WT" HEAD || exit 2
 ( cd "$WT" && git apply "$SRC" ) || { git -C /repo worktree remove --force "$WT"; echo "$ID: patch does not apply"; exit 2; }
-for p in $P $EXTRA; do
+PROPS="$P $EXTRA"
+# rewrites of shared plumbing (ids P<k>-h<j>) are run against all twenty checks
+case "$P" in P*) PROPS="C01 C02 C03 C04 C05 C06 C07 C08 C09 C10 C11 C12 C13 C14 C15 C16 C17 C18 C19 C20 $EXTRA";; esac
+for p in $PROPS; do
   o=$(cd /verif && VERIF_REPO=$WT timeout 2400 ./check "$p" 2>&1 | grep -E "VIOLATION|HARNESS|Traceback|quick seed" | head -4)
   echo "$ID $p: $o"
 done
